@@ -141,7 +141,10 @@ impl<'a> __Type<'a> {
     }
 
     async fn interfaces(&self) -> Option<Vec<__Type<'a>>> {
-        if let TypeDetail::Named(registry::MetaType::Object { name, .. }) = &self.detail {
+        if let TypeDetail::Named(
+            registry::MetaType::Object { name, .. } | registry::MetaType::Interface { name, .. },
+        ) = &self.detail
+        {
             Some(
                 self.registry
                     .implements
@@ -165,6 +168,17 @@ impl<'a> __Type<'a> {
                 possible_types
                     .iter()
                     .filter(|ty| self.visible_types.contains(ty.as_str()))
+                    // the possible types of an interface are object types: an interface that
+                    // implements it is not one of them
+                    .filter(|ty| {
+                        !(matches!(
+                            &self.detail,
+                            TypeDetail::Named(registry::MetaType::Interface { .. })
+                        ) && matches!(
+                            self.registry.types.get(ty.as_str()),
+                            Some(registry::MetaType::Interface { .. })
+                        ))
+                    })
                     .map(|ty| __Type::new(self.registry, self.visible_types, ty))
                     .collect(),
             )
